@@ -668,6 +668,10 @@ class Engine(ExprMixin):
         hook = self.loop_hooks.get(key)
         if hook is not None and hasattr(hook, "pre_havoc"):
             hook.pre_havoc(self, env)  # may replace e.g. a growing list by a ghost object that has sym_havoc
+        # ghost objects that callees update in place (opt-in: havoc_when_passed) are modified when passed to a call
+        passed = {a.id for st in s.body for n in ast.walk(st) if isinstance(n, ast.Call)
+                  for a in list(n.args) + [k_.value for k_ in n.keywords] if isinstance(a, ast.Name)}
+        mods = sorted(set(mods) | {n for n in passed if getattr(env.get(n), "havoc_when_passed", False)})
         for m_ in mods:
             if m_ in env and m_ not in tnames:
                 env[m_] = self.havoc_value(env[m_], m_)
